@@ -1,7 +1,7 @@
 /* C15 direct oracle: playback never alters the loaded module.
  *
  * usage: c15_digest run <seed> <ncases> <nops> <module>...
- *        c15_digest one <case_seed> <nops> <module> [-v]      (replay of one case)
+ *        c15_digest one <case_seed> <nops> <module> [-v] [-g1] (replay of one case; -g1: first-generation generators only)
  *        c15_digest probe <module>...                          (prints: probe <path> <invert-loop capable> <8-bit looped samples>)
  *
  * A case = (module, sample rate, output format, interpolator, player flags, optional injection of
@@ -377,6 +377,70 @@ static int vary_loops(struct xmp_module *mod)
 	return n;
 }
 
+/* --- second-generation generators; all their decisions come from a separate RNG stream so that the
+ * histories of older recorded cases (generator level 1) do not change --- */
+static int gen_level = 2;
+
+/* structure-aware event mutation: rewrite some events of the patterns that get played with combinations of
+ * special notes (key off / cut / fade), instruments, volumes and effects (all extended effects, slides,
+ * portamento, speed, offset, retrigger, key-off, envelope position) that the corpus lacks */
+static int mutate_events(struct context_data *ctx)
+{
+	struct module_data *m = &ctx->m;
+	struct xmp_module *mod = &m->mod;
+	static const int fx[] = { FX_EXTENDED, FX_EXTENDED, FX_EXTENDED, FX_PORTA_UP, FX_PORTA_DN, FX_PORTA_DN, FX_TONEPORTA,
+				  FX_VIBRATO, FX_TREMOLO, FX_OFFSET, FX_VOLSLIDE, FX_VOLSET, FX_SPEED, FX_SETPAN, FX_KEYOFF,
+				  FX_ENVPOS, FX_MULTI_RETRIG, FX_ARPEGGIO };
+	int n = vrng_range(8, 80), done = 0, t;
+	if (mod->pat <= 0 || mod->chn <= 0 || mod->len <= 0)
+		return 0;
+	for (t = 0; t < n; t++) {
+		int ord = vrng_chance(70) ? (int)vrng_below(mod->len < 4 ? mod->len : 4) : (int)vrng_below(mod->len);
+		int pat = mod->xxo[ord], trk, row, k;
+		struct xmp_track *tr;
+		struct xmp_event *e;
+		if (pat >= mod->pat || mod->xxp[pat] == NULL)
+			continue;
+		trk = mod->xxp[pat]->index[vrng_below(mod->chn)];
+		if (trk < 0 || trk >= mod->trk || (tr = mod->xxt[trk]) == NULL || tr->rows <= 0)
+			continue;
+		row = vrng_chance(70) ? (int)vrng_below(tr->rows < 12 ? tr->rows : 12) : (int)vrng_below(tr->rows);
+		e = &tr->event[row];
+		k = vrng_below(100);
+		e->note = k < 35 ? 0 : k < 65 ? vrng_range(1, 96) : k < 85 ? XMP_KEY_OFF : k < 92 ? XMP_KEY_CUT : XMP_KEY_FADE;
+		e->ins = vrng_chance(45) ? 0 : vrng_range(1, mod->ins > 0 ? mod->ins : 1);
+		e->vol = vrng_chance(60) ? 0 : vrng_range(1, 65);
+		if (vrng_chance(80)) {
+			e->fxt = fx[vrng_below(sizeof(fx) / sizeof(fx[0]))];
+			e->fxp = e->fxt == FX_SPEED ? vrng_range(1, 12) : vrng_chance(25) ? 0xff : vrng_below(256);
+		}
+		if (vrng_chance(25)) {
+			e->f2t = fx[vrng_below(sizeof(fx) / sizeof(fx[0]))];
+			e->f2p = e->f2t == FX_SPEED ? vrng_range(1, 12) : vrng_below(256);
+		}
+		done++;
+	}
+	return done;
+}
+
+/* samples with an extreme C5 speed (a loader may produce any value, e.g. S3M c2spd): the mixer's step then
+ * leaves its supported range and the voice is skipped */
+static int vary_c5spd(struct context_data *ctx)
+{
+	struct module_data *m = &ctx->m;
+	static const double v[] = { 1.0, 3.0, 12.0, 60.0, 400.0, 250000.0 };
+	int i, n = 0;
+	if (m->xtra == NULL)
+		return 0;
+	for (i = 0; i < m->mod.smp; i++) {
+		if (vrng_chance(35)) {
+			m->xtra[i].c5spd = v[vrng_below(6)];
+			n++;
+		}
+	}
+	return n;
+}
+
 static int scan_invloop(struct xmp_module *mod)
 {
 	int t, r;
@@ -451,7 +515,7 @@ static int run_case(uint64_t case_seed, int nops, const char *path)
 	struct xmp_frame_info fi;
 	struct xmp_module_info mi;
 	static unsigned char outbuf[200000];
-	int rate, fmt, interp, inject = 0, op, started = 0, total_time;
+	int rate, fmt, interp, inject = 0, op, started = 0, total_time, nmut = 0, nspd = 0;
 	long frames0 = n_frames;
 
 	vrng_seed(case_seed);
@@ -468,12 +532,22 @@ static int run_case(uint64_t case_seed, int nops, const char *path)
 	interp = vrng_below(3);	/* XMP_INTERP_NEAREST, LINEAR, SPLINE */
 	if (vrng_chance(60))
 		inject = inject_invloop(ctx);
-	has_invloop_fx = scan_invloop(mod);
 	if (vrng_chance(35))
 		inject += 1000 * vary_loops(mod);
+	if (gen_level >= 2) {
+		uint64_t saved = vrng_state;
+		vrng_seed(case_seed ^ 0x9e3779b97f4a7c15ULL);
+		if (vrng_chance(65))
+			nmut = mutate_events(ctx);
+		if (vrng_chance(35))
+			nspd = vary_c5spd(ctx);
+		vrng_state = saved;
+	}
+	has_invloop_fx = scan_invloop(mod);
 	take_snapshot(ctx, &snap);
-	printf("case %llu %d %s rate=%d fmt=%d interp=%d inject=%d invloopfx=%d smp=%d pat=%d\n",
-	       (unsigned long long)case_seed, nops, path, rate, fmt, interp, inject, has_invloop_fx, mod->smp, mod->pat);
+	printf("case %llu %d %s rate=%d fmt=%d interp=%d inject=%d invloopfx=%d smp=%d pat=%d gen=%d mut=%d c5spd=%d\n",
+	       (unsigned long long)case_seed, nops, path, rate, fmt, interp, inject, has_invloop_fx, mod->smp, mod->pat,
+	       gen_level, nmut, nspd);
 
 #define AFTER(name, multi) do { if (verbose) printf("op %d %s\n", op, name); compare(ctx, &snap, op, name, multi); } while (0)
 
@@ -610,7 +684,12 @@ int main(int argc, char **argv)
 		}
 		return 0;
 	} else if (argc >= 5 && !strcmp(argv[1], "one")) {
-		verbose = argc > 5 && !strcmp(argv[5], "-v");
+		for (i = 5; i < argc; i++) {
+			if (!strcmp(argv[i], "-v"))
+				verbose = 1;
+			if (!strcmp(argv[i], "-g1"))
+				gen_level = 1;
+		}
 		run_case(strtoull(argv[2], NULL, 10), atoi(argv[3]), argv[4]);
 	} else {
 		fprintf(stderr, "usage: c15_digest run <seed> <ncases> <nops> <module>... | one <case_seed> <nops> <module> [-v]\n");
